@@ -94,6 +94,9 @@ partial def parseVal : SE → Option Val
   | .node [.atom "s"] => some (.str "")
   | .node [.atom "c", .atom x] => (parseCirc x).map .circ
   | .node (.atom "l" :: xs) => (xs.mapM parseVal).map .list
+  | .node (.atom "d" :: xs) => (xs.mapM (fun (e : SE) => match e with
+      | SE.node [k, v] => do some ((← k.int?), (← parseVal v))
+      | _ => none)).map .dict
   | _ => none
 
 partial def showVal (bl : Blocks) : Val → String
@@ -103,6 +106,11 @@ partial def showVal (bl : Blocks) : Val → String
   | .str s => s!"(s {s})"
   | .circ c => s!"(c {showCircX bl c})"
   | .list l => "(l" ++ String.join (l.map (fun v => " " ++ showVal bl v)) ++ ")"
+  | .dict l =>
+    let rec ins (x : Int × Val) : List (Int × Val) → List (Int × Val)
+      | [] => [x]
+      | y :: ys => if x.1 ≤ y.1 then x :: y :: ys else y :: ins x ys
+    "(d" ++ String.join ((l.foldr ins []).map (fun e => s!" ({e.1} {showVal bl e.2})")) ++ ")"
 
 def parseEdges (l : List SE) : Option (List (Nat × Nat)) :=
   l.mapM (fun e => match e.atom? with
@@ -112,17 +120,18 @@ def parseEdges (l : List SE) : Option (List (Nat × Nat)) :=
     | none => none)
 
 def parseModel : SE → Option MModel
-  | .node [.atom "model", n, .node (.atom "e" :: es), .node (.atom "g" :: gs), .node (.atom "r" :: rs)] => do
+  | .node [.atom "model", n, gn, .node (.atom "e" :: es), .node (.atom "g" :: gs), .node (.atom "r" :: rs)] => do
     let n ← n.nat?
+    let gn ← gn.nat?
     let es ← parseEdges es
     let gs ← atomsNat gs
     let rs ← atomsNat rs
-    some ⟨n, es, gs, rs⟩
+    some ⟨n, gn, es, gs, rs⟩
   | _ => none
 
 def showModel (m : MModel) : String :=
   let es := (BqVerif.Drv.Circ.sortPts m.edges).map (fun e => s!"{e.1}-{e.2}")
-  s!"(model {m.n} (e{String.join (es.map (" " ++ ·))}) (g{String.join ((sortNat m.gates).map (fun g => s!" {g}"))}) (r{String.join (m.radixes.map (fun g => s!" {g}"))}))"
+  s!"(model {m.n} {m.gn} (e{String.join (es.map (" " ++ ·))}) (g{String.join ((sortNat m.gates).map (fun g => s!" {g}"))}) (r{String.join (m.radixes.map (fun g => s!" {g}"))}))"
 
 def parseTarget : SE → Option Target
   | .node [.atom "target", .atom "circ", .atom c] => (parseCirc c).map .ofCirc
@@ -238,7 +247,7 @@ def parseAct : SE → Option Act
   | _ => none
 
 /-! ## callables -/
-inductive CondSpec | const (b : Bool) | opsLt | opsLe | opsGt | cyclesLt | differ
+inductive CondSpec | const (b : Bool) | opsLt | opsLe | opsGt | cyclesLt
 inductive CollectSpec | all | gids (l : List Nat) | arity (k : Nat) | block | minq (q : Nat) | notGids (l : List Nat)
 inductive RFiltSpec | const (b : Bool) | opsLtOld | opsLt (k : Nat) | locHas (q : Nat)
 
@@ -248,7 +257,6 @@ def CondSpec.eval : CondSpec → Circ → Circ → Bool
   | .opsLe, a, b => a.numOps ≤ b.numOps
   | .opsGt, a, b => a.numOps > b.numOps
   | .cyclesLt, a, b => a.numCycles < b.numCycles
-  | .differ, a, b => showCircX [] a != showCircX [] b
 
 def CollectSpec.eval (bl : Blocks) : CollectSpec → Op → Bool
   | .all, _ => true
@@ -269,7 +277,7 @@ def RFiltSpec.eval (bl : Blocks) : RFiltSpec → Circ → Op → Bool
 def parseCondSpec : List String → Option CondSpec
   | ["true"] => some (.const true) | ["false"] => some (.const false)
   | ["opslt"] => some .opsLt | ["opsle"] => some .opsLe | ["opsgt"] => some .opsGt
-  | ["cycleslt"] => some .cyclesLt | ["differ"] => some .differ
+  | ["cycleslt"] => some .cyclesLt
   | _ => none
 def parseCollectSpec : List String → Option CollectSpec
   | ["all"] => some .all | ["block"] => some .block
@@ -355,7 +363,8 @@ structure DSt where
   st : Option St := none
 
 def parseFields (s : String) : Option (List Field) :=
-  if s == "-" then some [] else (s.splitOn ",").mapM Field.ofPyName
+  -- attribute names the model does not know are skipped (Props/C11 then fails its `decide`)
+  if s == "-" then some [] else some ((s.splitOn ",").filterMap Field.ofPyName)
 
 /-- the environment of a case; the block table read by the callables is the input table (callables
 only look at input block names: `block`, `opsltold`) -/
